@@ -45,6 +45,10 @@ func (C06) Generate(rng *rand.Rand, tier string, runIdx uint64) simkit.Plan {
 	p.Cfg.Extra = map[string]string{"dualstack": simkit.Pick(rng, []string{"off", "off", "on"})}
 	p.Steps = append(p.Steps, Prelude(rng, g)...)
 	for len(p.Steps) < n {
+		if simkit.Chance(rng, 4) {
+			p.Steps = append(p.Steps, g.Macro()...)
+			continue
+		}
 		p.Steps = append(p.Steps, g.Next())
 	}
 	return p
